@@ -325,6 +325,14 @@ def trace_origin(name: str, source: str, *, __all__: bool = False) -> _TraceResu
                 with origin.open("r", encoding="utf-8") as stream:
                     module_source = stream.read()
 
+                # Like dir() above: without __all__, a star import skips names with a leading underscore
+                if name.startswith("_") and not any(
+                    core.filter_nodes(
+                        core.parse(module_source).body,
+                        ast.Assign(targets=[ast.Name(id="__all__")], value=(ast.List, ast.Tuple)),
+                )):
+                    continue
+
                 if trace_origin(name, module_source, __all__=True):
                     return _TraceResult(core.get_code(node, source), node.lineno, node)
 
